@@ -10,6 +10,27 @@ TOKEN = rl.TOKEN
 
 
 _routers = {}
+_last = {}
+
+
+class ReInt(int):
+    hook = None
+
+    def __int__(self):
+        if self.hook:
+            h, self.hook = self.hook, None
+            h()
+        return int.__int__(self)
+
+
+class ReFloat(float):
+    hook = None
+
+    def __float__(self):
+        if self.hook:
+            h, self.hook = self.hook, None
+            h()
+        return float.__float__(self)
 
 
 def record(rng, r, path, flavour):
@@ -34,6 +55,26 @@ def record(rng, r, path, flavour):
         ep, _err = router.resolve(asked, ['GET'])
         if ep is not None and all(k in ep[1] for k in keys):
             vals = [ep[1][k] for k in keys]
+    # a Route object serves every thread of the process: while one URL is being built another one is (here: deterministically,
+    # from inside the conversion of one of the values -- a number that, asked for its value, first builds the previous URL of
+    # this rule again, start to end, as another thread would between two steps of this call)
+    prev = _last.get(text)
+    _last[text] = ([v for k, v in zip(keys, vals) if k.startswith('anon-')], {k: v for k, v in zip(keys, vals) if not k.startswith('anon-')})
+    if prev is not None and flavour % 3 == 0:
+        for i in range(1, len(vals)):
+            v = vals[i]
+            if isinstance(v, bool) or not isinstance(v, (int, float)):
+                continue
+
+            def other(prev=prev):
+                try:
+                    route.url(*prev[0], **prev[1])
+                except Exception:   # noqa
+                    pass
+            vals = list(vals)
+            vals[i] = (ReInt if isinstance(v, int) else ReFloat)(v)
+            vals[i].hook = other
+            break
     args = [v for k, v in zip(keys, vals) if k.startswith('anon-')]
     kw = {k: v for k, v in zip(keys, vals) if not k.startswith('anon-')}
     rec = {'pat': r['pat'], 'filters': r['filters'], 'path': path, 'vals': [rl.val_text(v) for v in vals], 'url': [], 'exc': '',
@@ -143,6 +184,13 @@ def run(chk):
         {'pat': [TOKEN, TOKEN] + rl.s2l('/tail'), 'filters': ['int(None)', 'None'], 'names': ['a', 'b']},
         {'pat': rl.s2l('x/') + [TOKEN, TOKEN] + rl.s2l('-end/') + [TOKEN], 'filters': ['int(None)', 're([a-z]+)', 'None'], 'names': ['n', 'w', 'z']},
         {'pat': [TOKEN, TOKEN, TOKEN] + rl.s2l('.z'), 'filters': ['float(None)', 're([a-z]+)', 'int(None)'], 'names': ['f', '', 'i']},
+        # wildcard names that are also words of Python or of the URL builder's own vocabulary: a name is just a name
+        {'pat': rl.s2l('search/') + [TOKEN], 'filters': ['None'], 'names': ['query']},
+        {'pat': rl.s2l('obj/') + [TOKEN] + rl.s2l('/of/') + [TOKEN], 'filters': ['int(None)', 'None'], 'names': ['self', 'cls']},
+        {'pat': rl.s2l('call/') + [TOKEN] + rl.s2l('/') + [TOKEN], 'filters': ['None', 'path()'], 'names': ['args', 'kw']},
+        {'pat': rl.s2l('r/') + [TOKEN] + rl.s2l('-') + [TOKEN], 'filters': ['re([a-z]+)', 'float(None)'], 'names': ['rule', 'name']},
+        {'pat': rl.s2l('k/') + [TOKEN] + rl.s2l('/') + [TOKEN] + rl.s2l('/') + [TOKEN], 'filters': ['None', 'None', 'None'], 'names': ['anchor', 'params', 'route']},
+        {'pat': rl.s2l('u/') + [TOKEN] + rl.s2l('/') + [TOKEN], 'filters': ['None', 'int(None)'], 'names': ['anon_user', '_']},
     ]
     recs = []
     rules = fixed + rand_universe(rng, 200 if thorough else 40)
